@@ -44,7 +44,33 @@ def clean_text(s):
         s.encode('utf-8')
         return s
     except UnicodeEncodeError:
-        return None          # wildcard: the field only has to be present
+        return Unencodable(s)
+
+
+class Unencodable:
+    """Text with characters protobuf cannot carry.  How those are replaced is not stated; what can be demanded is that
+    everything else arrives, in order, and that the field does not grow (a value cut to the string limit by the
+    collector must not get longer on its way out)."""
+
+    def __init__(self, text):
+        self.text = text
+
+    def matches(self, wire):
+        if not isinstance(wire, str) or len(wire) > len(self.text):
+            return False
+        pos = 0
+        run = ''
+        for ch in self.text + '\ud800':
+            if 0xD800 <= ord(ch) <= 0xDFFF:
+                if run:
+                    at = wire.find(run, pos)
+                    if at < 0:
+                        return False
+                    pos = at + len(run)
+                    run = ''
+            else:
+                run += ch
+        return True
 
 
 def any_value_py(av):
@@ -141,9 +167,9 @@ def project(m):
 
 def first_diff(exp, got, path=''):
     """First differing field; None in the expectation is a wildcard (field must merely be present)."""
-    if exp is None and path and path.split('.')[-1] in ('value', 'name', 'original_name', 'expression', 'error',
-                                                        'log_msg'):
-        return None
+    if isinstance(exp, Unencodable):
+        return None if exp.matches(got) else '%s differs (text with unencodable characters: the rest must arrive, in ' \
+                                             'order, and the field must not grow)' % path
     if isinstance(exp, dict) and isinstance(got, dict):
         for k in exp:
             if k not in got:
@@ -214,7 +240,9 @@ class Loopback:
             def poll(self, request, context):
                 outer.polls.append((request, [(m.key, m.value) for m in context.invocation_metadata()]))
                 return PollResponse(ts_nanos=1, current_hash='', response_type=ResponseType.NO_CHANGE)
-        self.server = grpc.server(concurrent.futures.ThreadPoolExecutor(2))
+        # the service side takes messages of any size: what the *client* lets out is the subject
+        self.server = grpc.server(concurrent.futures.ThreadPoolExecutor(2),
+                                  options=[('grpc.max_receive_message_length', -1)])
         tracepoint_pb2_grpc.add_SnapshotServiceServicer_to_server(Snap(), self.server)
         poll_pb2_grpc.add_PollConfigServicer_to_server(Poll(), self.server)
         self.port = self.server.add_insecure_port('127.0.0.1:0')
@@ -254,6 +282,11 @@ class C08(Prop):
             'watches': st.lists(st.sampled_from(['h0', 's_int', 'nope', '1/0', 's_list[0]', 'chr(0xd800)']), max_size=2),
             'log_msg': st.sampled_from([None, 'v={s_int}', 'bad {nope}', 'sur {h0}']),
             'res': st.dictionaries(st.sampled_from(['r1', 'r2']), ATTR_VALUE, max_size=2),
+            # further arguments on the tracepoint as the service sends them (text -> text): known ones and others
+            'extra_args': st.dictionaries(
+                st.sampled_from(['MAX_VARIABLES', 'MAX_STRING_LENGTH', 'MAX_COLLECTION_SIZE', 'MAX_VAR_DEPTH',
+                                 'MAX_TP_PROCESS_TIME', 'frame_type', 'stack_type', 'note']),
+                st.sampled_from(['5', '50', '1000', 'x', 'all_frame', 'stack', '']), max_size=2),
         })
         frame = fd({'file_name': TEXT, 'short_path': TEXT, 'method_name': TEXT,
                                        'line_number': st.integers(0, 2 ** 31 - 1),
@@ -293,6 +326,9 @@ class C08(Prop):
             'polls': st.integers(1, 3), 'sends': st.integers(0, 3),
         })
         loopback = fd({'mode': st.just('loopback'), 'inner': synthetic,
+                       # a full table: as many entries as the default limits allow, values of 1024 four-byte characters,
+                       # long child names (several MB on the wire)
+                       'table': st.sampled_from([0, 0, 0, 0, 300, 1001]),
                        'metadata': st.lists(st.tuples(st.sampled_from(['authorization', 'x-api-key']),
                                                       st.text(alphabet='abcXYZ019 =+/', max_size=8)), max_size=2).map(
                            lambda l: [list(t) for t in l])})
@@ -355,7 +391,8 @@ class C08(Prop):
             frame_locals['h%d' % j] = vals[i % n]
         if any(nd['k'] == 'surrogate' for nd in r['values']['nodes']) or 'chr(0xd800)' in r['watches']:
             out.cls('surrogate_text')
-        args = {'fire_count': '-1', 'fire_period': '0'}
+        args = dict(r.get('extra_args') or {})
+        args.update({'fire_count': '-1', 'fire_period': '0'})
         if r['log_msg']:
             args['log_msg'] = r['log_msg']
         trig = build_trigger('tp-w', 'c08_host.py', 4, args, list(r['watches']), [])
@@ -432,6 +469,12 @@ class C08(Prop):
         th = TaskHandler()
         try:
             snap = self.build_synthetic(r['inner'])
+            if r.get('table'):
+                out.cls('huge_table')
+                big = '\U0001f600' * 1024
+                for i in range(r['table']):
+                    snap.var_lookup['T%d' % i] = Variable('str', big, 'h%d' % i, [VariableId(
+                        'T%d' % ((i + 1) % r['table']), 'child_' + 'n' * 300, [], None)], True)
             LongPoll(cfg, g).poll()
             PushService(g, th).push_snapshot(snap)
             th.flush()
